@@ -19,14 +19,16 @@ CLAIMED = {
             "Trusted: Lean kernel + Mathlib, axioms propext/Classical.choice/Quot.sound; hand-written model tied to the "
             "code by sampled correspondence; float rounding of sums not modelled (1e-12 exact-arithmetic excess is "
             "checked, not proved).", "§6 C04"),
-    "C05": ("Lean 4 proof: model = independently stated KOV spec (equalities, permutation invariance, monotonicity) + "
+    "C05": ("Lean 4 proof: model = independently stated KOV spec (equalities, permutation invariance, monotonicity), and "
+            "soundness of the reported total for adaptive composition of kernels in the pure-DP / slack-0 regime + "
             "pure-function correspondence and 60-digit reference check",
             "Machine-checked over R about the same `totalCore` the driver runs: delta fold = 1-(1-slack)*prod(1-d_i) "
             "(total_delta_eq), epsilon = min(sum, DRV, KOV) with the coded term = eps*tanh(eps/2) (total_eps_eq, "
             "term_eq_tanh), slack 0 = basic composition, invariance under List.Perm, monotone under appending a spend, "
             "delta in [0,1]. Tied to the code by bit-exact (slack 0) / 1e-12 (slack>0) comparison of the public pure "
             "`total(spent_budget=, slack=)` with the driver on lists of 0..200 spends, and checked directly against an "
-            "independent 60-digit decimal/fractions KOV evaluation (closeness, never below, permutation, monotonicity).",
+            "independent 60-digit decimal/fractions KOV evaluation (closeness, never below, permutation, monotonicity). "
+            "SOUNDNESS (pure regime): accountant_total_sound_pure / accountant_run_sound_pure - with slack 0 and every recorded delta 0 the reported epsilon is the sum, and ANY adaptive composition of kernels that are eps_i-DP respectively satisfies mu S <= e^total mu' S on every measurable set (Compose.adaptive_composition_list); the general statement (delta > 0, slack > 0) is kept as `def accountant_total_sound_full : Prop` (Kairouz-Oh-Viswanath, cited).",
             "Trusted: Lean kernel + Mathlib; that the KOV expression is a valid composition bound is cited, not proved; "
             "IEEE rounding not modelled (deviations beyond the property's slack near slack=1 are a listed known finding).",
             "§6 C05"),
@@ -58,7 +60,9 @@ CLAIMED = {
             "Trusted: Lean kernel + Mathlib; number of iterations of the double-precision loop is observed (>= 52 or exact "
             "root), not proved; two rounding regions are listed known findings.", "§6 C18"),
     "C01": ("Lean 4 proof: exact laws of the transcribed samplers (Lebesgue measure of preimages / branching recursion) and "
-            "epsilon-ratio bounds for all seven families + exact-law extraction from the running code and direct ratio check",
+            "epsilon-ratio bounds for all seven families + formula anchors (32 sub-expressions of the samplers re-read from the "
+            "Python source on every run and proved equal to the model's) + exact-law extraction from the running code and "
+            "direct ratio check",
             "Machine-checked over R about the samplers as coded: Binary's flip/keep sets have measure 1/(e^eps+1), "
             "e^eps/(e^eps+1) and ratio <= e^eps; the geometric noise map has atoms (1-r)/(1+r) r^|k| (exact cells, "
             "measurability proved) and is eps-DP atom-wise for |x-x'| <= sens, lifted to every output set and through any "
@@ -77,7 +81,8 @@ CLAIMED = {
             "(binary/geom/exp_sampler_dp). Tied to the code by (i) sampler outputs under scripted "
             "uniforms vs the driver, (ii) the exact pmf of the RUNNING sampler extracted by break-point bisection / decision-"
             "tree enumeration vs the model's closed-form law, and the property is checked directly on the extracted pmf "
-            "(every neighbour pair and atom >= 1e-9, slack 1e-6).",
+            "(every neighbour pair and atom >= 1e-9, slack 1e-6). "
+            "Formula anchors (harness/anchor_specs_c01.py): 32 sub-expressions of Binary / Geometric / Exponential / PermuteAndFlip / ExponentialCategorical (scales, both sides of every threshold test, branch values) are re-read from /repo's AST on every run and proved equal to the model's terms, with 7 assembly theorems (binaryRandomise_eq, geomRandomise_eq, expScale_eq, ...): a changed formula breaks an obligation at lake build.",
             "Trusted: Lean kernel + Mathlib; random() uniform on the 53-bit grid with independent draws; the law extractor; "
             "u = 1/2 and zero-width domains belong to C12.", "§6 C01"),
     "C02": ("Lean 4 proof: (eps,delta) theorems on all measurable sets for the Laplace family, uniform, staircase, bounded-noise "
@@ -122,7 +127,7 @@ CLAIMED = {
     "C03": ("Lean 4 proof: the LAWS of the additive samplers as coded (push-forward of the uniform / normal / gamma product measure "
             "under the sampler map): 4-uniform Laplace identity, (N1+N2)/sqrt2, sum of four Gamma(d/4), rejection = conditional "
             "law, CKS acceptance; additivity/input-independence/linearity; post-processing + scripted-stream correspondence on "
-            "both RNG back-ends; statistical validation (DKW 1e-14) as supporting evidence",
+            "both RNG back-ends; statistical validation (DKW 1e-14) as supporting evidence + formula anchors (44 sub-expressions of the samplers re-read from the Python source on every run)",
             "Machine-checked (81 theorems): the Holohan-Braghin identity — log(1-U1)cos(pi U2) + log(1-U3)cos(pi U4) pushed "
             "forward from the uniform measure on [0,1)^4 IS the standard Laplace law (characteristic functions: each term "
             "has 1/sqrt(1+t^2), uniqueness from charFun), hence Laplace.randomise on four uniforms has law "
@@ -137,12 +142,15 @@ CLAIMED = {
             "stream for all x and linear in the calibrated scale; truncation/folding/snapping are post-processing by maps of "
             "the bounds only. Over the i.i.d. UNIFORM stream measure (Measure.infinitePi unif01; machinery shared with C01): the discrete-Gaussian CKS loop - geometric count law, one-pass law, renewal identity, the unbounded loop returns y with probability EXACTLY e^{-y^2/2 sigma^2}/sum, the fuelled model refines it and conversely for all large fuels (cks_loop_law_full: mu ret <= dG <= mu ret + mu abort; cks_growing_fuel_law); the batch layout of the rejection loops (sample i of a batch of s reads uniforms i, s+i, 2s+i, 3s+i) is injective and turns the uniform stream into an i.i.d. Laplace candidate stream, so the bounded-domain / bounded-noise samplers in the code's own consumption order have the conditioned Laplace law and satisfy C02's (eps,delta) inequality (boundedDomain_sampler_dp, boundedNoise_sampler_dp); Snapping with a fair bit and a continuous uniform: sign*log U is Laplace, round-half-up cells, released grid pmf, pure eps_eff-DP in exact arithmetic (not Mironov's floating-point theorem). QUANTITATIVE fuel bound (cks_abort_bound, cks_loop_law_quantitative): P[abort] <= (4096 tau^64/64! + e^{-4096 tau} + e^{e-4096}) / ((1-e^{-tau}) (1/2) e^{-tau^2 sigma^2/2}) for the model's fixed fuels 64/4096/4096 (< 1e-6 at scale 1; honest, not small for large scales where the geometric cap is really reached), with per-component bounds cks_coin_fuel_bound, cks_geometric_cap_bound; the snapping sampler's dyadic uniform (52 mantissa bits + geometric exponent from 32-bit words) is proved to be the ROUND-DOWN of a continuous uniform to the floating-point grid, exponent cap explicit (snap_uniform_closed_form, snap_round_down_grid, snap_uniform_law). REMAINING: composing that with the log step and the floating-point evaluation of log (Mironov's theorem is cited); sphere uniformity is proved under C17, not restated here; Bingham's acceptance ratio is inverted (proved: bingham_accept_cex; open finding). Tied to the code by running every randomise on scripted streams against the driver on BOTH back-ends "
             "(SystemRandom script and numpy RandomState script; outputs and numbers of draws consumed), live-object sequences, "
-            "repeated evaluation of released functions; statistical law tests at the DKW 1e-14 level are supporting evidence.",
+            "repeated evaluation of released functions; statistical law tests at the DKW 1e-14 level are supporting evidence. "
+            "Formula anchors (harness/anchor_specs_c03.py): 44 sub-expressions (the 4-uniform Laplace combination, Gaussian unit draw on both back-ends, uniform and staircase pieces, Snapping's scale/offset/round/clamp pipeline, the fold step) are re-read from /repo's AST on every run and proved equal to the model's, with 10 assembly theorems.",
             "Trusted: Lean kernel + Mathlib; library primitives (random() uniform, normalvariate/standard_normal normal, "
             "gammavariate/gamma gamma, numpy geometric) have the laws their names say; calibrated scales of the root-finder "
             "mechanisms are read from the object (C02's subject). Open findings: Bingham; six classes keep a stale scale "
             "after a parameter assignment.", "§6 C03"),
-    "C06": ("Lean 4 proof: non-interference of the release-plan DSL, instantiated for every tool and estimator plan + forced-"
+    "C06": ("Lean 4 proof: non-interference of the release-plan DSL, instantiated for every tool and estimator plan; "
+            "non-interference of a statement-level taint IR (loops included) with the IR of 24 entry points regenerated from "
+            "the Python sources on every run (translator) and decided in Lean + forced-"
             "output two-dataset experiment on the implementation",
             "Machine-checked: in a release plan data can reach a mechanism parameter, the continuation or the release only "
             "through a mechanism input, so for every plan, every two datasets with agreeing probes and every forced output "
@@ -153,11 +161,14 @@ CLAIMED = {
             "trace correspondence of C07/C08, and the hyperproperty itself is tested on the implementation: two arbitrarily "
             "different same-shape datasets with ALL randomise calls forced to identical values must give bit-identical call "
             "schedules, mechanism parameters and releases (12 tools, 7 estimators, partial_fit batches, drifting KMeans "
-            "centres).",
+            "centres). "
+            "STATIC TIE (harness/translate/taint.py, DPL/Model/TaintIR.lean): 24 entry points (tools, histograms, covariance_eig, StandardScaler.partial_fit, GaussianNB internals, _construct_regression_obj) are lowered on every run to a statement IR (assign / declass = mechanism result / probe / branch / loop / ret) with contents and shape of every variable split; `flowsOk` is decided by decide +kernel per entry point and static_taint_sound proves non-interference for every accepted function (two environments that agree outside the data parameters configure the same mechanism calls and return the same values, for every interpretation of the pure operations, loops included). Not followed (dynamic tie only): LinearRegression.fit, KMeans, PCA, forest.",
             "Trusted: Lean kernel; 'same shape' includes the group-occupancy pattern for GaussianNB/KMeans/forest (probes); "
             "every data-dependent draw goes through randomise; data-independent randomness fixed by an integer seed.",
             "§6 C06"),
     "C07": ("Lean 4 proof: sensitivity lemmas for datasets of every size, split identities, per-tool privacy-loss bounds on the "
+            "release plans LIFTED TO OUTPUT LAWS (each tool is eps-DP on every measurable set, by adaptive composition over "
+            "Laplace / geometric kernels), "
             "release plans, rank-form density ratio for the quantile family + trace correspondence with forced outputs and "
             "direct loss accounting on the implementation",
             "Machine-checked over R for lists of every length n >= 1, any position of the replaced record and arbitrary (also "
@@ -172,7 +183,8 @@ CLAIMED = {
             "listed open known findings; the step from the coded interval representation of the quantile to the rank form is "
             "tied by correspondence. Tied to the code by running each tool with forced mechanism outputs against the Lean plan "
             "(classes and counts exact, parameters and inputs 1e-9, release); the property is checked directly by pairing the "
-            "invocations of runs on neighbouring datasets and, for quantiles, by the exact density of the constructed mechanism.",
+            "invocations of runs on neighbouring datasets and, for quantiles, by the exact density of the constructed mechanism. "
+            "OUTPUT LAWS (DPL/Proofs/ToolsCompose*.lean, on C08's composition layer): mean/sum/var/std/intsum_tool_dp, wrap_axis_tool_dp and the axis variants, count_tool_dp, hist_tool_dp, histogram(dd)_tool_dp: law p D S <= e^eps law p D' S for every measurable S, for any metric-DP kernel family, and hypothesis-free with truncated-Laplace kernels (mean, sum and axis variants) and the geometric kernel derived from C01 (counts, histograms); LaplaceBoundedDomain (var/std) and GeometricTruncated with sensitivity != 1 keep the metric-DP hypothesis.",
             "Trusted: Lean kernel + Mathlib; numpy statistics and bin assignment; the reshape of n-d arrays to records x cells "
             "in the harness; sequential/parallel composition cited.", "§6 C07"),
     "C08": ("Lean 4 proof: compositional privacy-loss calculus on release plans, per-estimator model_privloss, split identities "
@@ -218,7 +230,8 @@ CLAIMED = {
             "Trusted: Lean kernel + Mathlib; prefix-monotonicity of the accountant total on doubles is validated on exact-fit "
             "budgets, not proved; estimator bodies are abstract here (C08 owns them).", "§6 C09"),
     "C10": ("Lean 4 proof: clip helpers in bounds / identity on the domain / idempotent for the function as coded (any linear "
-            "order) + exact helper correspondence and seeded end-to-end equality f(D) == f(clip D)",
+            "order); soundness of a clipped-before-use analysis (run on D = run on clip D for every lawful semantics) with the "
+            "skeleton of 27 entry points regenerated from the Python sources on every run (translator) and decided in Lean + exact helper correspondence and seeded end-to-end equality f(D) == f(clip D)",
             "Machine-checked: for the whole clip_to_bounds as coded (exact-equality fast path + per-feature path) and the 1-D "
             "entry the tools use: output in [lower, upper] in every coordinate, identity on in-domain data, idempotent — for "
             "ANY linear order, hence for non-NaN doubles; fast path = per-feature path when taken; over R: clip_to_norm rows "
@@ -226,11 +239,13 @@ CLAIMED = {
             "result on D and clip(D). Tied to the code by exact comparison of the helpers' outputs with the driver on "
             "generated arrays/bounds (nearly-equal per-feature bounds, zero width, inf, NaN rows) and checked directly: the "
             "three helper laws on the implementation, and bit-identical seeded results of every tool and bounds-/norm-domain "
-            "model on D and on an independently clipped D.",
+            "model on D and on an independently clipped D. "
+            "STATIC TIE (harness/translate/clips.py, DPL/Model/ClipIR.lean): the skeleton (clip / reshape / assign / use at a mechanism, release or effect / ret, under seq / branch / loop with the dependencies of the conditions) of 27 entry points is regenerated on every run; clippedBeforeUse is decided in Lean per entry point (clean / raw / tainted abstract interpretation) and static_clip_sound proves that an accepted skeleton observes the same mechanism inputs, releases and return value on D and on clip(D) for every lawful semantics (declared clip idempotent, re-arrangements commute with it). Not covered: count_nonzero (no bounds), PCA._fit_full (centring precedes the norm clip).",
             "Trusted: Lean kernel + Mathlib; hand model tied by sampled correspondence; numpy's clip/norm; float norm "
             "rounding (1e-12) observed, not proved; histogram drops (does not clip) out-of-range samples.", "§6 C10"),
     "C12": ("Lean 4 proof: range/typing/termination theorems for truncate, fold as coded (modulo step + loop), rejection "
-            "loops, selection, degenerate parameters + scripted-uniform correspondence with hang detection",
+            "loops, selection, degenerate parameters + formula anchors (64 sub-expressions incl. both sides of every range "
+            "test, re-read from the Python source on every run and proved equal to the model's) + scripted-uniform correspondence with hang detection",
             "Machine-checked: truncate in bounds and identity on the domain (any linear order); the coded fold lands in "
             "[lower, upper] after at most 2 reflections for lower <= upper, zero-width domain returns the point (over R); "
             "rejection loops return the first in-range draw of the batch (any carrier); selection returns an index of the "
@@ -240,7 +255,8 @@ CLAIMED = {
             "mechanism incl. Snapping; Snapping's final clamp. Tied to the code by running randomise of every bounded "
             "mechanism under scripted uniforms (extremes 0, 1-2^-53, 1/2, break-point neighbours; zero-width, narrow, "
             "infinite domains) against the driver, and checked directly (range, type, no RecursionError/OverflowError, hangs "
-            "observed through time-outs).",
+            "observed through time-outs). "
+            "Formula anchors (harness/anchor_specs_c12.py): 64 sub-expressions of _truncate, _fold (width, modulo thresholds, while-test, reflections), the geometric and Laplace noise formulas, Snapping's bound / truncate / round pipeline and Binary's flip test are re-read from /repo's AST on every run and proved equal to the model's, with 11 assembly theorems (truncate_eq, fold_eq, foldLoop_step, ...).",
             "Trusted: Lean kernel + Mathlib; epsilon = inf is not expressible over R (covered by correspondence); that the "
             "fold on doubles stays in range, almost-sure termination of rejection loops and Bingham's unit norm on doubles "
             "are observed, not proved; _find_scale and Bingham not modelled.", "§6 C12"),
@@ -287,7 +303,9 @@ CLAIMED = {
             "mechanisms and tools.",
             "Trusted: Lean kernel; which draws are noise vs structural is a modelling decision (listed per entry point); "
             "os.urandom / default_rng quality.", "§6 C14"),
-    "C15": ("Lean 4 proof: schedule independence of the seed-before-parallel discipline, partition of the row subsets + "
+    "C15": ("Lean 4 proof: schedule independence of the seed-before-parallel discipline, partition of the row subsets; what "
+            "is handed to the parallel tasks is read off the source on every run (randomness-site translator shared with C14) "
+            "and proved to be seeds drawn before dispatch + "
             "repetition / fresh-interpreter / n_jobs experiments",
             "Machine-checked: for every number of tasks, generator, task behaviour and complete schedule the indexed result "
             "list equals the sequential one when seeds are drawn before the parallel section and each task owns its "
@@ -296,7 +314,8 @@ CLAIMED = {
             "carrier) and partition the rows (over R). PARTIAL: bit-reproducibility, seed sensitivity, n_jobs independence on "
             "the real thread/process pools and the tree-index range on doubles are validated on every run (79 entry points: "
             "in-process and fresh-interpreter repetition, different seeds, n_jobs in {1,2,4,8}, scrambled completion order, "
-            "interposition confirming seeds are drawn before any task starts), not proved.",
+            "interposition confirming seeds are drawn before any task starts), not proved. "
+            "STATIC TIE: parallel_tasks_get_seeds - in the hand-over table that DPL.Gen.C14.external_passes proves equal to the one regenerated from the source on every run, what reaches the joblib-delayed one-vs-rest tasks is an integer drawn before dispatch (or None), never a generator object (the defect repaired in b7f8f89 is flagged: shared_generator_flagged).",
             "Trusted: Lean kernel + Mathlib; MT19937 determinism and seed sensitivity; joblib's ordered collection and absence "
             "of shared mutable state in sklearn/numpy; the child-interpreter shim.", "§6 C15"),
     "C16": ("Lean 4 proof: refinement of the _default/old_default machine to a stack for every well-bracketed program + "
